@@ -3,7 +3,7 @@
 patch="$(realpath "$1")"; shift
 cd /repo || exit 2
 if ! git diff --quiet; then echo "/repo has uncommitted changes"; exit 2; fi
-if ! git apply "$patch"; then echo "patch does not apply"; exit 2; fi
+if ! git apply "$patch" && ! git apply -C1 "$patch"; then echo "patch does not apply"; exit 2; fi
 cd /verif
 for id in "$@"; do
   start=$(date +%s)
